@@ -84,12 +84,18 @@ def run_cases(cases, res, stratum):
                     res.fail(c, 'model Strings parser does not restore the code', expected=code, got=kind); res.failures[-1]['no_input'] = True; break
 
 def run_arrays(rng, n_cases, res):
-    fx = lib.impl(); import numpy as np
+    cases = []
     for _ in range(n_cases):
-        n = rng.choice([2, 3, 5, 8, 13, 16, 32, 52, 64, 70]); s = rng.random() < 0.5; nf = rng.randint(0, n); lo, hi = S.fmt_bounds(s, n)
+        n = rng.choice([2, 3, 5, 8, 13, 16, 32, 52, 54, 60, 63, 64, 70]); s = rng.random() < 0.5; nf = rng.randint(0, n); lo, hi = S.fmt_bounds(s, n)
         codes = [rng.choice([lo, hi, 0, rng.randint(lo, hi)]) for _ in range(4)]
         shape = rng.choice([(4,), (2, 2)])
-        c = {'f': [s, n, nf], 'codes': codes, 'shape': list(shape)}
+        cases.append({'f': [s, n, nf], 'codes': codes, 'shape': list(shape)})
+    run_array_cases(cases, res)
+
+def run_array_cases(cases, res):
+    fx = lib.impl(); import numpy as np
+    for c in cases:
+        s, n, nf = c['f']; codes = list(c['codes']); shape = tuple(c['shape'])
         try:
             x = A.mk(fx, np, s, n, nf, codes, shape=shape)
             b = np.array(x.bin()).reshape(-1).tolist(); h = np.array(x.hex()).reshape(-1).tolist()
@@ -100,7 +106,11 @@ def run_arrays(rng, n_cases, res):
                 y = fx.Fxp(x.bin(prefix='0b'), s, n, nf, raw=True); z = fx.Fxp(None, s, n, nf); z.set_val(x.hex(), raw=True)
                 w = fx.Fxp(None, s, n, nf); w.from_bin(x.bin(), raw=True)
                 if lib.codes_of(y) != codes or lib.codes_of(z) != codes or lib.codes_of(w) != codes:
-                    res.fail(c, 'C11: feeding the rendered strings of an array back does not restore the codes', expected=codes, got=(lib.codes_of(y), lib.codes_of(z), lib.codes_of(w)))
+                    res.fail(c, 'C11: feeding the rendered strings of an array back does not restore the codes', expected=codes, got=(lib.codes_of(y), lib.codes_of(z), lib.codes_of(w))); continue
+                # the same strings held in a NumPy string array instead of a list
+                ya = fx.Fxp(np.array(x.bin(prefix='0b')), s, n, nf, raw=True); za = fx.Fxp(None, s, n, nf); za.set_val(np.array(x.hex()), raw=True)
+                if lib.codes_of(ya) != codes or lib.codes_of(za) != codes:
+                    res.fail(c, 'C11: feeding the rendered strings back as a NumPy string array does not restore the codes', expected=codes, got=(lib.codes_of(ya), lib.codes_of(za)))
         except Exception as e:
             res.fail(c, 'C11: rendering or parsing an array raised %s' % lib.exc_name(e), got=str(e)[:300])
 
@@ -132,4 +142,5 @@ def classify(fl): return None
 def replay(payload):
     res = Result(); c = payload['case']
     if 'c' in c: run_cases([c], res, 'replay')
+    elif 'codes' in c: run_array_cases([c], res)
     return {'holds': not res.failures, 'failures': res.failures}
